@@ -229,10 +229,9 @@ def gen_scripts(chk):
     rng = chk.rng
     out = [(f"targeted/{n}", ss) for n, ss in targeted()]
     shapes = list(gensql.enumerate_shapes(1))
-    if chk.tier != "thorough":
-        shapes = rng.sample(shapes, 60)
+    shapes = rng.sample(shapes, 60 if chk.tier != "thorough" else 400)
     out += [(f"shape/{n}", [s]) for n, s in shapes]
-    n_rand = 900 if chk.tier == "thorough" else 110
+    n_rand = 500 if chk.tier == "thorough" else 110
     R = gensql.Rand(rng, max_depth=3 if chk.tier == "thorough" else 2)
     for i in range(n_rand):
         k = rng.choice([1, 1, 2, 3])
@@ -274,7 +273,7 @@ def run(chk):
         return chk.finish(level="proof", rule="driver unavailable")
     drv = Driver()
     thorough = chk.tier == "thorough"
-    dialects = ["ansi", "sparksql", "postgres", "non-validating"] if thorough else ["ansi"]
+    dialects = ["ansi", "sparksql", "non-validating"] if thorough else ["ansi"]
     st = sqlcheck.Stats()
     want = ("tables", "columns", "cyto")
 
